@@ -173,6 +173,10 @@ func (e *SEnv) evalBool(sx *SX) string {
 	return v.T
 }
 
+// localHints: function -> identifier used in its contract -> declaration ordinal of the
+// local variable it named on the tree the baseline was recorded on.
+var localHints = map[string]map[string]int{}
+
 var smtFuncs = map[string]string{"u2f": "F", "f2u": "Int", "fdiv": "F", "fmul": "F", "fsub": "F", "fround": "F", "fabs": "F",
 	"fle": "Bool", "flt": "Bool", "nn": "Int", "tdiv": "Int", "chancap": "Int"}
 
@@ -294,6 +298,9 @@ func (e *SEnv) evalID(sx *SX) Val {
 						}
 					}
 					if v, ok := e.st.vars[vr]; ok {
+						if ord, ok := x.localOrd[vr]; ok {
+							x.usedLocals[name] = ord
+						}
 						return v
 					}
 					if vr.Parent() == vr.Pkg().Scope() && isErrorType(vr.Type()) {
@@ -303,6 +310,22 @@ func (e *SEnv) evalID(sx *SX) Val {
 				}
 				if c, ok := obj.(*types.Const); ok {
 					return constToVal(x, c)
+				}
+			}
+		}
+	}
+	if e.own {
+		// rename robustness: the identifier named a local variable when the contract was
+		// written; find it by its declaration ordinal
+		if ord, ok := localHints[x.fn.name()][name]; ok && ord < len(x.localDecls) {
+			if vr, ok := x.localDecls[ord].(*types.Var); ok {
+				if e.entryParams && x.fn.isParam(vr) {
+					if v, ok := x.entry.vars[vr]; ok {
+						return v
+					}
+				}
+				if v, ok := e.st.vars[vr]; ok {
+					return v
 				}
 			}
 		}
